@@ -193,7 +193,7 @@ def readelf_crosscheck(path):
     segs = re.findall(r"^\s+([A-Z_]+)\s+0x([0-9a-f]+)\s+0x([0-9a-f]+)\s+0x[0-9a-f]+\s+0x([0-9a-f]+)\s+0x([0-9a-f]+)\s+([RWE ]{3})\s+0x([0-9a-f]+)", o, re.M)
     mine = [(s.tname, s.offset, s.vaddr, s.filesz, s.memsz, s.align) for s in el.segments]
     theirs = [(t, int(a, 16), int(b, 16), int(c, 16), int(d, 16), int(f, 16)) for t, a, b, c, d, _, f in segs]
-    if not theirs or (len(theirs) == len(mine) and mine != theirs):
+    if (not theirs and mine) or (len(theirs) == len(mine) and mine != theirs):
         out.append(("readelf:segment-mismatch", f"elfread and readelf disagree on program headers: {mine} vs {theirs}"))
     return out
 
